@@ -120,6 +120,7 @@ INPUTS = [1, "v"]
 
 
 def check_sequence(seq, res):
+    import labrea.functions as Fmod
     from labrea import Option
     from labrea.pipeline import Pipeline
 
@@ -158,6 +159,18 @@ def check_sequence(seq, res):
                     got2 = observe(None, lambda: (e >> pv).evaluate(copy.deepcopy(o)))
                     if not got2.ok or freeze(got2.value) != freeze(want):
                         fail("rshift-differs", f"[{vname}] x={x!r} o={o!r}: {got2!r}, expected {want!r}", tree)
+            # the function a pipeline evaluates to can be applied any number of times
+            for o in DICTS[:2]:
+                fn = observe(None, lambda: pv.evaluate(copy.deepcopy(o)), materialise=False)
+                if fn.ok:
+                    outs = [observe(None, lambda: fn.value(x)) for x in (1, 1, "v")]
+                    wants = [model_apply(seq, x, o) for x in (1, 1, "v")]
+                    if any(not g.ok or freeze(g.value) != freeze(w_) for g, w_ in zip(outs, wants)):
+                        fail("evaluated-pipeline-not-reusable", f"[{vname}] o={o!r}: successive applications gave {outs!r}, expected {wants!r}", tree)
+                mapped = observe(None, lambda: list(Fmod.map(pv).transform([1, "v", 1], copy.deepcopy(o))))
+                wantm = [model_apply(seq, x, o) for x in (1, "v", 1)]
+                if not mapped.ok or freeze(mapped.value) != freeze(wantm):
+                    fail("pipeline-inside-map-helper", f"[{vname}] o={o!r}: {mapped!r}, expected {wantm!r}", tree)
             # iteration yields the steps in application order
             steps = observe(None, lambda: list(pv), materialise=False)
             ms = model_steps(seq, {"P": 5, "Q": 6})
